@@ -473,6 +473,13 @@ Proof.
   rewrite app_nil_r. reflexivity.
 Qed.
 
+Lemma crash_image_at l w post cut :
+  crash_image (l ++ w :: post) (length l) cut = apply_writes (l ++ [torn w cut]).
+Proof.
+  unfold crash_image. rewrite firstn_app, Nat.sub_diag, firstn_all. cbn [firstn].
+  rewrite app_nil_r, nth_error_app2, Nat.sub_diag by lia. reflexivity.
+Qed.
+
 Definition rejected_or_empty (img : list N) : Prop :=
   match open_result img with
   | Ok (_, _, x) => x = []
@@ -527,7 +534,8 @@ Section Whole.
       | Ok (_, _, xr) => (exists k, k <= len xml /\ xr = take k xml /\ (k = len xml \/ k = 0 \/ k + 256 <= len xml)) /\
                          (xr = xml -> img = F /\ snd (wrun p pw_fresh) = Ok tt)
       end).
-    { intros img H. unfold rejected_or_empty in H. destruct (open_result img) as [[[s h] xr]|e|]; auto.
+    { intros img H. unfold rejected_or_empty in H. remember (open_result img) as r eqn:Er. clear Er.
+      destruct r as [[[s h] xr]|e|]; [|exact I|exact H].
       subst xr. split; [exists 0; split; [lia|split; [reflexivity|auto]]|]. intros E. symmetry in E. contradiction. }
     destruct (crash_trace_shape is xml) as [[_ Hall]|[Hok (pre & P0 & data4 & x & Hsh)]];
       [apply Hweak, weak_rejected, Hall|].
@@ -553,7 +561,9 @@ Section Whole.
                                       (xr = xml -> F = F /\ snd (wrun p pw_fresh) = Ok tt)
                    end).
     { specialize (HT 1024). unfold torn_image in HT. rewrite take_all in HT by lia. rewrite <- HFr in HT.
-      destruct (open_result F) as [[[s h] xr]|e|]; auto. destruct HT as [H1 _]. split; [exact H1|]. auto. }
+      remember (open_result F) as r eqn:Er. clear Er.
+      destruct r as [[[s h] xr]|e|]; [|exact I|exact HT]. destruct HT as [H1 _]. split; [exact H1|].
+      intros _. split; [reflexivity|exact Hok]. }
     rewrite Htr.
     destruct (Nat.lt_ge_cases n (length pre)) as [Hlt|Hge].
     { rewrite crash_image_app_lt by exact Hlt. apply Hweak, weak_rejected, Hpre. }
@@ -561,25 +571,19 @@ Section Whole.
     { (* the final write of page 0, torn *)
       assert (Himg : crash_image (pre ++ [(0, P0); (0, P0)]) (length pre) cut
                      = torn_image data4 P0 (N.of_nat cut)).
-      { unfold crash_image, torn_image. rewrite firstn_app, Nat.sub_diag, firstn_all. cbn [firstn].
-        rewrite app_nil_r, nth_error_app2, Nat.sub_diag by lia. cbn [nth_error]. unfold torn. cbn [fst snd].
-        rewrite apply_writes_snoc, HI, firstn_take. reflexivity. }
-      rewrite Himg. specialize (HT (N.of_nat cut)).
-      destruct (open_result (torn_image data4 P0 (N.of_nat cut))) as [[[s h] xr]|e|]; auto.
+      { rewrite crash_image_at, apply_writes_snoc, HI. unfold torn, torn_image. cbn [fst snd].
+        rewrite firstn_take. reflexivity. }
+      rewrite Himg. specialize (HT (N.of_nat cut)). clear HatF Himg.
+      remember (open_result (torn_image data4 P0 (N.of_nat cut))) as r eqn:Er. clear Er.
+      destruct r as [[[s h] xr]|e|]; [|exact I|exact HT].
       destruct HT as [H1 H2]. split; [exact H1|]. intros E. split; [|exact Hok].
       rewrite HFr. apply H2; assumption. }
     destruct (Nat.eq_dec n (S (length pre))) as [->|Hn2].
     { (* the identical rewrite in Drop, torn: already the completed file *)
       assert (Himg : crash_image (pre ++ [(0, P0); (0, P0)]) (S (length pre)) cut = F).
-      { unfold crash_image.
-        change (pre ++ [(0, P0); (0, P0)]) with (pre ++ [(0, P0)] ++ [(0, P0)]). rewrite app_assoc.
-        rewrite firstn_app, app_length. cbn [length].
-        replace (S (length pre) - (length pre + 1))%nat with 0%nat by lia. cbn [firstn].
-        rewrite firstn_all2, app_nil_r by (rewrite app_length; cbn [length]; lia).
-        rewrite nth_error_app2 by (rewrite app_length; cbn [length]; lia).
-        rewrite app_length. cbn [length].
-        replace (S (length pre) - (length pre + 1))%nat with 0%nat by lia. cbn [nth_error]. unfold torn. cbn [fst snd].
-        rewrite !apply_writes_snoc, HI. cbn [fst snd]. rewrite firstn_take, HFr.
+      { change (pre ++ [(0, P0); (0, P0)]) with (pre ++ [(0, P0)] ++ [(0, P0)]). rewrite app_assoc.
+        replace (S (length pre)) with (length (pre ++ [(0, P0)])) by (rewrite app_length; cbn [length]; lia).
+        rewrite crash_image_at, !apply_writes_snoc, HI. unfold torn. cbn [fst snd]. rewrite firstn_take, HFr.
         apply overwrite_prefix_idem. lia. }
       rewrite Himg. exact HatF. }
     (* behind the last write *)
@@ -605,19 +609,10 @@ Section Whole.
   Proof.
     intros Hok Hn.
     destruct (crash_trace_shape is xml) as [[Hf _]|[_ (pre & P0 & data4 & x & Hsh)]]; [contradiction|].
-    cbv zeta in Hsh. destruct Hsh as (Htr & Hpre & HI & HF & HlP & _).
+    cbv zeta in Hsh. destruct Hsh as (Htr & Hpre & HI & HF & HlP & _ & _ & _ & _ & _ & _ & Hl4 & _).
     fold p tr in Htr.
     assert (HlI : len (paginate data4) = pages_for (len data4) * 1024) by apply len_paginate.
-    assert (Hpg : 1 <= pages_for (len data4)).
-    { assert (Hnn : len (paginate data4) <> 0); [|lia].
-      rewrite <- HI. intros E0. apply PageSpecLemmas.len_0_nil in E0.
-      pose proof (final_image_replay _ p) as Hr. fold tr in Hr. rewrite Htr in Hr.
-      change (pre ++ [(0, P0); (0, P0)]) with (pre ++ [(0, P0)] ++ [(0, P0)]) in Hr.
-      rewrite app_assoc, !apply_writes_snoc, E0 in Hr. cbn [fst snd] in Hr.
-      fold p in HF. rewrite HF in Hr. apply (f_equal len) in Hr.
-      rewrite len_paginate, !len_overwrite, HlP, len_hdr in Hr. cbn in Hr.
-      (* the completed file has at least one page; so had the image before *)
-      unfold pages_for, PAYLOAD_SZ in *. lia. }
+    assert (Hpg : 1 <= pages_for (len data4)) by (unfold pages_for, PAYLOAD_SZ; lia).
     assert (HFr : F = overwrite (paginate data4) 0 P0).
     { unfold F. rewrite final_image_replay. fold tr. rewrite Htr.
       change (pre ++ [(0, P0); (0, P0)]) with (pre ++ [(0, P0)] ++ [(0, P0)]).
@@ -625,15 +620,9 @@ Section Whole.
       rewrite <- (take_all 1024 P0) at 2 by lia. apply overwrite_prefix_idem. lia. }
     rewrite Htr in Hn |- *. rewrite app_length in Hn. cbn [length] in Hn.
     destruct (Nat.eq_dec n (S (length pre))) as [->|Hn2].
-    - unfold crash_image.
-      change (pre ++ [(0, P0); (0, P0)]) with (pre ++ [(0, P0)] ++ [(0, P0)]). rewrite app_assoc.
-      rewrite firstn_app, app_length. cbn [length].
-      replace (S (length pre) - (length pre + 1))%nat with 0%nat by lia. cbn [firstn].
-      rewrite firstn_all2, app_nil_r by (rewrite app_length; cbn [length]; lia).
-      rewrite nth_error_app2 by (rewrite app_length; cbn [length]; lia).
-      rewrite app_length. cbn [length].
-      replace (S (length pre) - (length pre + 1))%nat with 0%nat by lia. cbn [nth_error]. unfold torn. cbn [fst snd].
-      rewrite !apply_writes_snoc, HI. cbn [fst snd]. rewrite firstn_take, HFr.
+    - change (pre ++ [(0, P0); (0, P0)]) with (pre ++ [(0, P0)] ++ [(0, P0)]). rewrite app_assoc.
+      replace (S (length pre)) with (length (pre ++ [(0, P0)])) by (rewrite app_length; cbn [length]; lia).
+      rewrite crash_image_at, !apply_writes_snoc, HI. unfold torn. cbn [fst snd]. rewrite firstn_take, HFr.
       apply overwrite_prefix_idem. lia.
     - rewrite crash_image_all by (rewrite app_length; cbn [length]; lia).
       rewrite <- Htr. unfold tr. rewrite <- final_image_replay. reflexivity.
